@@ -181,7 +181,7 @@ fn pc_check(out: &mut Sink, c: &mut PcCase, d: &PcDump, after_evict: bool) {
 
 fn pc_case(rng: &mut Rng, out: &mut Sink, case: usize) {
     let shards = if rng.chance(1, 12) { *rng.pick(&[0usize, 65, 100]) } else { *rng.pick(&[1usize, 1, 2, 3, 5, 7, 12, 33, 63, 64]) };
-    let size = if rng.chance(1, 10) { *rng.pick(&[0usize, 1 << 44, (1 << 44) - 1, 1 << 54]) } else { *rng.pick(&[1usize, 1, 2, 16]) };
+    let size = if rng.chance(1, 12) { *rng.pick(&[1usize << 44, (1 << 44) - 1, 1 << 54]) } else { *rng.pick(&[0usize, 0, 1, 1, 1, 2, 16]) };
     let fl = rng.below(4);
     let mut next_tag = 1u64;
     let mut tag = || { next_tag += 1; next_tag };
@@ -194,12 +194,10 @@ fn pc_case(rng: &mut Rng, out: &mut Sink, case: usize) {
         Err(()) => {
             out.line(op, "panic".into());
             out.count(&format!("pc_new_panic_shards{}_size{}", if (1..=64).contains(&shards) { "ok" } else { "bad" }, if size == 0 { "0" } else if size >= (1 << 44) { "huge" } else { "ok" }));
-            // oracle C13: a valid configuration must not panic
-            if (1..=64).contains(&shards) && size < (1 << 44) && size > 0 {
+            // oracle C13: a valid configuration must not panic; `page_cache_size(0)` is one (finding F25, repaired:
+            // one page per shard)
+            if (1..=64).contains(&shards) && size < (1 << 44) {
                 out.fail(format!("C13 page cache: PageCache::new panics on a valid configuration ({ctx})"));
-            }
-            if (1..=64).contains(&shards) && size == 0 {
-                out.count("pc_new_size0_panics");
             }
             return;
         }
@@ -208,14 +206,19 @@ fn pc_case(rng: &mut Rng, out: &mut Sink, case: usize) {
     let d = pc_dump(&sim);
     out.line(op, format!("ok {}", pc_dump_str(&d, true)));
     let budget = size.wrapping_mul(1 << 20) / 4096;
-    if d.shards.iter().map(|s| s.0).sum::<usize>() > budget {
+    if size == 0 {
+        out.count("pc_new_size0_one_page_per_shard");
+        if d.shards.iter().any(|s| s.0 != 1) {
+            out.fail(format!("C13 page cache: page_cache_size(0) must give every shard a limit of one page ({ctx})"));
+        }
+    } else if d.shards.iter().map(|s| s.0).sum::<usize>() > budget {
         out.fail(format!("C13 page cache: the shard limits add up to more than the budget of {budget} pages ({ctx})"));
     }
     if d.shards.len() != shards {
         out.fail(format!("C13 page cache: {} shards for commit_concurrency {shards}", d.shards.len()));
     }
-    // tiny limits through the hook
-    if rng.chance(9, 10) {
+    // tiny limits through the hook (a size-0 cache keeps its own limit of one page per shard half of the time)
+    if rng.chance(if size == 0 { 5 } else { 9 }, 10) {
         let per = if rng.chance(1, 25) { 0 } else { rng.range(1, 3) };
         let op = format!("pc limit {per}");
         match quiet(AssertUnwindSafe(|| sim.set_limit_per_root_child(per))) {
@@ -707,7 +710,8 @@ pub fn run_db(seed: u64, cases: usize, out: &mut Sink) {
         o.hashtable_buckets(8192);
         o.rollback(false);
         o.warm_up(r.chance(1, 3));
-        o.page_cache_size(*r.pick(&[1usize, 4]));
+        let page_mib = *r.pick(&[0usize, 0, 1, 4]);
+        o.page_cache_size(page_mib);
         o.page_cache_upper_levels(r.below(4));
         o.prepopulate_page_cache(r.chance(1, 2));
         o.leaf_cache_size(leaf_mib);
@@ -715,7 +719,7 @@ pub fn run_db(seed: u64, cases: usize, out: &mut Sink) {
         o.preallocate_ht(false);
         let db = match catch_unwind(AssertUnwindSafe(|| Nomt::<Blake3Hasher>::open(o))) {
             Ok(Ok(db)) => db,
-            _ => { out.fail(format!("C10 caches-db: open failed (case {case})")); set_leaf_cache_observer(None); continue; }
+            _ => { out.fail(format!("C13 caches-db: Nomt::open fails or panics with page_cache_size({page_mib}) leaf_cache_size({leaf_mib}) (case {case})")); set_leaf_cache_observer(None); let _ = std::fs::remove_dir_all(&dir); continue; }
         };
         obs.lock().unwrap().ln = std::fs::File::open(format!("{dir}/ln")).ok();
         let mut view: BTreeMap<Key, Vec<u8>> = BTreeMap::new();
@@ -786,17 +790,42 @@ pub fn run_db(seed: u64, cases: usize, out: &mut Sink) {
         out.add("db_leaf_insert_of_page_number_inserted_before", o.reinserts_of_cached_pn);
         out.add("db_leaf_evict_shard", o.evicted_shards);
         out.count(&format!("db_leaf_cache_{leaf_mib}MiB"));
+        out.count(&format!("db_page_cache_{page_mib}MiB"));
         out.nontrivial(&format!("db {case} {} {} {}", o.hits, o.misses, o.inserts));
     }
 }
 
-/// `caches-open0` (directed, NOT part of a registered run): `Nomt::open` with `page_cache_size(0)` and with
-/// `leaf_cache_size(0)` — the point `T13_cache_new_total` excludes / includes.
+/// `caches-open0` (directed corpus run, the replay of finding F25): `Nomt::open` with `page_cache_size(0)` and with
+/// `leaf_cache_size(0)`, then one commit and reads on each store — must succeed (`T13_cache_new_total`,
+/// `T13_page_cache_size0_opens`); panicked in `make_shards` before repair 6886fe6.
 pub fn run_open0(_seed: u64, _cases: usize, out: &mut Sink) {
     use nomt::hasher::Blake3Hasher;
-    use nomt::{Nomt, Options};
+    use nomt::{KeyReadWrite, Nomt, Options, SessionParams, WitnessMode};
     let pid = std::process::id();
-    for (what, page, leaf) in [("leaf_cache_size(0)", 1usize, 0usize), ("page_cache_size(0)", 0, 1)] {
+    // the cache alone, every shard count, against the mirror
+    let dbg = cfg!(debug_assertions) as u8;
+    for n in 1..=64usize {
+        out.mark_case(format!("caches-open0 PageCache::new shards={n} size=0"));
+        let op = format!("pc new {dbg} {n} 0 2 -");
+        match quiet(|| PageCacheSim::new(None, n, 0, 2)) {
+            Ok(sim) => {
+                let d = pc_dump(&sim);
+                if d.shards.len() != n || d.shards.iter().any(|s| s.0 != 1) {
+                    out.fail(format!("C13 page cache: page_cache_size(0) with {n} shards must give {n} shards of one page each"));
+                }
+                out.line(op, format!("ok {}", pc_dump_str(&d, true)));
+                out.count("open0_page_cache_new_ok");
+            }
+            Err(()) => {
+                out.line(op, "panic".into());
+                out.fail(format!("C13 page cache: PageCache::new panics with page_cache_size(0), {n} shards (finding F25)"));
+            }
+        }
+        out.nontrivial(&format!("open0 {n}"));
+    }
+    // the store
+    for (what, page, leaf) in [("leaf_cache_size(0)", 1usize, 0usize), ("page_cache_size(0)", 0, 1), ("page_cache_size(0) and leaf_cache_size(0)", 0, 0)] {
+        out.mark_case(format!("caches-open0 Nomt::open with {what}"));
         let dir = format!("/dev/shm/nomt-verif-caches-open0-{pid}");
         let _ = std::fs::remove_dir_all(&dir);
         let mut o = Options::new();
@@ -805,17 +834,40 @@ pub fn run_open0(_seed: u64, _cases: usize, out: &mut Sink) {
         o.preallocate_ht(false);
         o.page_cache_size(page);
         o.leaf_cache_size(leaf);
-        let r = catch_unwind(AssertUnwindSafe(|| Nomt::<Blake3Hasher>::open(o).map(|_| ())));
+        let r = catch_unwind(AssertUnwindSafe(|| -> anyhow::Result<()> {
+            let db = Nomt::<Blake3Hasher>::open(o)?;
+            let mut view: BTreeMap<Key, Vec<u8>> = BTreeMap::new();
+            for round in 0..3u8 {
+                let s = db.begin_session(SessionParams::default().witness_mode(WitnessMode::disabled()));
+                let mut list: Vec<(Key, KeyReadWrite)> = Vec::new();
+                for i in 0..200u32 {
+                    let mut k = [0u8; 32];
+                    k[..4].copy_from_slice(&(i.wrapping_mul(2654435761)).to_be_bytes());
+                    if (i + round as u32) % 3 == 0 { continue; }
+                    let v = vec![round ^ i as u8; 40 + (i as usize % 7) * 200];
+                    view.insert(k, v.clone());
+                    list.push((k, KeyReadWrite::Write(Some(v))));
+                }
+                list.sort_by(|a, b| a.0.cmp(&b.0));
+                s.finish(list)?.commit(&db)?;
+                for (k, v) in view.iter() {
+                    if db.read(*k)?.as_deref() != Some(&v[..]) {
+                        anyhow::bail!("read of {} differs from the committed value", hex(k));
+                    }
+                }
+            }
+            Ok(())
+        }));
         let imp = match r {
             Ok(Ok(())) => "ok".to_string(),
             Ok(Err(e)) => format!("err {e:#}"),
             Err(p) => format!("PANIC {}", p.downcast_ref::<String>().cloned().or(p.downcast_ref::<&str>().map(|s| s.to_string())).unwrap_or_default()),
         };
-        println!("Nomt::open with {what}: {imp}");
-        if imp.starts_with("PANIC") {
-            out.fail(format!("C13 Nomt::open with {what} panics ({imp}); every other cache size opens the store and gives the same results"));
+        println!("Nomt::open + 3 commits + reads with {what}: {imp}");
+        if imp != "ok" {
+            out.fail(format!("C13 Nomt::open / commit / read with {what}: {imp}; every other cache size opens the store and gives the same results (finding F25)"));
         }
-        out.count(&format!("open0_{}", if imp == "ok" { "ok" } else { "not_ok" }));
+        out.count(&format!("open0_store_{}", if imp == "ok" { "ok" } else { "not_ok" }));
         let _ = std::fs::remove_dir_all(&dir);
     }
 }
